@@ -1143,9 +1143,17 @@ def process_program(job):
                             break
                     else:
                         count('agree:layout')
-    except Exception as e:  # noqa: BLE001
+    except (OSError, MemoryError) as e:   # infrastructure (gfortran missing, disk, memory): not a verdict
         out['notes'].append('worker error: ' + ''.join(traceback.format_exception(type(e), e, e.__traceback__))[-1500:])
         out['error'] = True
+    except Exception as e:  # noqa: BLE001
+        # The harness could not digest what the code under test returned (never happens on the unchanged tree; seen
+        # once with a seeded change that made the compiled module read outside its arrays).  That is a deviation of
+        # the code, not of the infrastructure: report it with the traceback instead of aborting the whole check.
+        tb = ''.join(traceback.format_exception(type(e), e, e.__traceback__))[-1500:]
+        out['notes'].append('worker exception: ' + tb)
+        out['violations'].append({'key': 'unprocessable-observation', 'what': 'the harness raised while processing this program: ' + tb,
+                                  'case': {'script': prog['script'], 'tag': prog.get('tag', 'random')}})
     finally:
         shutil.rmtree(work, ignore_errors=True)
     return out
